@@ -70,12 +70,21 @@ class QuantityPoint {
     //      BAD: QuantityPoint<Celsius, int> -> QuantityPoint<Kelvins, int>
     //      OK : QuantityPoint<Celsius, int> -> QuantityPoint<Kelvins, double>
     //      OK : QuantityPoint<Celsius, int> -> QuantityPoint<Milli<Kelvins>, int>
+    template <typename OtherUnit, typename OtherRep, bool SameDim>
+    struct ImplicitConstructionFromImpl : std::false_type {};
+    template <typename OtherUnit, typename OtherRep>
+    struct ImplicitConstructionFromImpl<OtherUnit, OtherRep, true>
+        : std::is_convertible<
+              decltype(std::declval<typename QuantityPoint<OtherUnit, OtherRep>::Diff>() +
+                       origin_displacement(UnitT{}, OtherUnit{})),
+              Quantity<UnitT, RepT>> {};
+
     template <typename OtherUnit, typename OtherRep>
     static constexpr bool should_enable_implicit_construction_from() {
-        return std::is_convertible<
-            decltype(std::declval<typename QuantityPoint<OtherUnit, OtherRep>::Diff>() +
-                     origin_displacement(UnitT{}, OtherUnit{})),
-            QuantityPoint::Diff>::value;
+        // Check the dimension first: the displacement sum below is ill-formed if it differs.
+        return ImplicitConstructionFromImpl<OtherUnit,
+                                            OtherRep,
+                                            HasSameDimension<UnitT, OtherUnit>::value>::value;
     }
 
     // This machinery exists to give us a conditionally explicit constructor, using SFINAE to select
